@@ -511,7 +511,7 @@ def run_impl(case):
                 out["other_result"] = "error:" + err_class(e)
     elif kind == "ortho":
         x = _arr(case["x"])
-        v = _sim(case["fam"], x, case["n"], False, True)
+        v = _sim(case["fam"], x, case["n"], False, True, **_foreign_kwargs(case))
         out["v"] = v.tolist()
         if case["fam"] == "legendre":
             w = _arr(case["w"])
